@@ -137,11 +137,13 @@ def make_rule(prog, fn, pairs=PAIRS):
     return SizePairRule(prog, fn)
 
 
-def check_size_pairs(ck, prog, config, clause, min_exits=4):
+def check_size_pairs(ck, prog, config, clause, min_exits=4, units=None):
     from ..rules.common import assigned_fields
     total = 0
     nfn = 0
     for fn in sorted(prog.lib_funcs(), key=lambda f: f.qname):
+        if units is not None and not any(fn.unit.endswith(u) for u in units):
+            continue
         stored = set(_tail(pstr(l)) for (l, r, op, n) in assigned_fields(fn))
         mine = [p for p in PAIRS if p[0] in stored and p[1] in stored]
         if not mine:
